@@ -1,7 +1,9 @@
 CONSTANTS
   Depth = 1
   AllVias = TRUE
+  LastAllVias = FALSE
   Prune = TRUE
   PruneLast = FALSE
+  Repr = FALSE
 SPECIFICATION Spec
 INVARIANT Emit
